@@ -1037,20 +1037,23 @@ class ModelBuilder:
                     unit = match.group(2)
                     if amount <= 0:
                         raise ValueError(f"project duration must be positive, got '+{duration_str}'")
-                    if unit == "min":
-                        end_date = start_date + relativedelta(minutes=amount)
-                    elif unit == "h":
-                        end_date = start_date + relativedelta(hours=amount)
-                    elif unit == "d":
-                        end_date = start_date + relativedelta(days=amount)
-                    elif unit == "w":
-                        end_date = start_date + relativedelta(weeks=amount)
-                    elif unit == "m":
-                        end_date = start_date + relativedelta(months=amount)
-                    elif unit == "y":
-                        end_date = start_date + relativedelta(years=amount)
-                    else:
-                        end_date = start_date
+                    try:
+                        if unit == "min":
+                            end_date = start_date + relativedelta(minutes=amount)
+                        elif unit == "h":
+                            end_date = start_date + relativedelta(hours=amount)
+                        elif unit == "d":
+                            end_date = start_date + relativedelta(days=amount)
+                        elif unit == "w":
+                            end_date = start_date + relativedelta(weeks=amount)
+                        elif unit == "m":
+                            end_date = start_date + relativedelta(months=amount)
+                        elif unit == "y":
+                            end_date = start_date + relativedelta(years=amount)
+                        else:
+                            end_date = start_date
+                    except OverflowError:
+                        raise ValueError(f"project period '+{duration_str}' ends beyond the calendar") from None
                     project["end"] = end_date
 
         if start_date and project["end"] is None:
